@@ -177,6 +177,10 @@ Qed.
 Lemma style_clone_complete : clone_rows_complete style_clone_rows = true.
 Proof. vm_compute. reflexivity. Qed.
 
+(* and every struct type reachable from a style is built afresh by one of them *)
+Lemma style_clone_deep : clone_types_covered style_clone_rows style_reachable_types = true.
+Proof. vm_compute. reflexivity. Qed.
+
 (* examples: a two-cycle and a self loop resolve; a chain inherits from the nearest ancestor *)
 Definition cyc : registry :=
   [(1%N, mkSty (Some 2%N) (Some [("Spacing"%string, 10%N)]) None None);
